@@ -159,6 +159,8 @@ class GateReplacer(Visitor):
     def visit_NamedQubit(self, qubit: NamedQubit):
         """This happens when the user indexes a qubit register."""
         alias_from = self.visit(qubit.alias_from)
+        if not isinstance(alias_from, (Register, Parameter)):
+            raise JaqalError(f"Cannot index {alias_from}: it is not a register")
         alias_index = filter_float(self.visit(qubit.alias_index))
         return alias_from[alias_index]
 
